@@ -183,6 +183,9 @@ pub fn run_exact(ctx: &mut Ctx, prop_c14: bool) {
             if !ctx.scenario(idx, &label) {
                 continue;
             }
+            if prop_c14 {
+                ctx.mixed_type_constructors();
+            }
             for &n in chunk {
                 exact_case(ctx, kind, n, false, &mut stats);
                 if n >= 1 && n <= small_max && kind == Kind::Auto {
